@@ -10,10 +10,10 @@
 #include <stdarg.h>
 #include "hcommon.h"
 
-enum { PG_SPAWN, PG_ATTR, PG_DETACH, PG_MUTEX_STATIC, PG_COND, PG_BARRIER, PG_SPIN, PG_ONCE, PG_KEYS, PG_SELF, PG_EXIT, PG_MIX, PG_KEYS_ALL, PG_N };
+enum { PG_SPAWN, PG_ATTR, PG_DETACH, PG_MUTEX_STATIC, PG_COND, PG_BARRIER, PG_SPIN, PG_ONCE, PG_KEYS, PG_SELF, PG_EXIT, PG_MIX, PG_KEYS_ALL, PG_TRYLOCK, PG_RETCODES, PG_N };
 static const char * const pg_name[] = { "spawn tree (NULL attr)", "spawn with attribute objects (default-init, stack size)", "detached threads (attribute and pthread_detach)",
   "counter under a PTHREAD_MUTEX_INITIALIZER mutex first used by all threads at once", "condition-variable hand-off (static initialisers)", "barrier phases",
-  "spin-lock counter", "pthread_once", "keys with destructors", "pthread_self / pthread_equal", "pthread_exit from nested frames", "mixed: keys + mutex + yield + usleep(0)", "keys with destructors, every thread stores a value under every key" };
+  "spin-lock counter", "pthread_once", "keys with destructors", "pthread_self / pthread_equal", "pthread_exit from nested frames", "mixed: keys + mutex + yield + usleep(0)", "keys with destructors, every thread stores a value under every key", "trylock / timedlock on a mutex held by the creator", "return codes of init/destroy/attr/yield/sleep calls" };
 typedef struct { int pg, n, W, K; } prog_t;
 #define MAXP 200
 static prog_t P[2][MAXP]; static int NP[2];
@@ -52,7 +52,15 @@ static void * t_barrier(void * a) {
   }
   return (void *)serial;
 }
-static void * t_spin(void * a) { (void)a; for (int k = 0; k < 2; k++) { pthread_spin_lock(&spin); long c = counter; counter = c + 1; pthread_spin_unlock(&spin); sched_yield(); } return 0; }
+static void * t_spin(void * a) {
+  (void)a; long rc = 0;
+  for (int k = 0; k < 2; k++) {
+    if (k == 0) rc += pthread_spin_lock(&spin);                                   /* POSIX: 0 */
+    else { int t; while ((t = pthread_spin_trylock(&spin)) != 0) { if (t != EBUSY) rc += 1000; sched_yield(); } }
+    long c = counter; counter = c + 1; rc += pthread_spin_unlock(&spin); sched_yield();
+  }
+  return (void *)rc;
+}
 static void once_fn(void) { once_runs++; sched_yield(); }
 static void * t_once(void * a) { (void)a; pthread_once(&once, once_fn); return (void *)once_runs; }
 static int keys_all;
@@ -68,6 +76,14 @@ static void * t_self(void * a) { long me = (long)a; pthread_t s = pthread_self()
 static void __attribute__((noinline)) deep_exit(long v, int d) { volatile char pad[32]; pad[0] = (char)d; if (d == 0) pthread_exit((void *)v); deep_exit(v, d - 1); (void)pad; }
 static void * t_exit(void * a) { deep_exit((long)a + 70, 3); return (void *)-1L; }
 static void * t_detached(void * a) { (void)a; sched_yield(); pthread_mutex_lock(&smtx); detached_done++; pthread_cond_broadcast(&scv); pthread_mutex_unlock(&smtx); return 0; }
+static pthread_mutex_t dm;
+static void * t_try(void * a) {
+  long me = (long)a; struct timespec past = { 1, 0 };
+  int r1 = pthread_mutex_trylock(&dm);                 /* held by the creator: EBUSY */
+  int r2 = pthread_mutex_timedlock(&dm, &past);        /* deadline long past: ETIMEDOUT */
+  int r3 = pthread_mutex_trylock(&smtx); if (r3 == 0) pthread_mutex_unlock(&smtx); else { pthread_mutex_lock(&smtx); pthread_mutex_unlock(&smtx); r3 = 0; }
+  return (void *)(long)(r1 * 10000 + r2 * 100 + r3 + me * 0);
+}
 static void * t_mix(void * a) { long me = (long)a; pthread_setspecific(key1, (void *)(7 + me)); pthread_mutex_lock(&smtx); counter += (long)pthread_getspecific(key1); pthread_mutex_unlock(&smtx); usleep(0); sched_yield(); return pthread_getspecific(key1); }
 
 static void program(int pg, int n, char * log, size_t logn) {
@@ -89,7 +105,7 @@ static void program(int pg, int n, char * log, size_t logn) {
   case PG_COND: for (long i = n - 1; i >= 0; i--) pthread_create(&th[i], NULL, t_turn, (void *)i); for (int i = 0; i < n; i++) { pthread_join(th[i], &r); logf_("t%d=%ld;", i, (long)r); } logf_("turn=%ld;", turn); break;
   case PG_BARRIER: { long serial = 0; pthread_barrier_init(&bar, NULL, n); for (long i = 0; i < n; i++) pthread_create(&th[i], NULL, t_barrier, (void *)i);
     for (int i = 0; i < n; i++) { pthread_join(th[i], &r); if ((long)r < 0) logf_("bad%d=%ld;", i, (long)r); else serial += (long)r; } logf_("serial_total=%ld;", serial); pthread_barrier_destroy(&bar); break; }
-  case PG_SPIN: pthread_spin_init(&spin, PTHREAD_PROCESS_PRIVATE); for (long i = 0; i < n; i++) pthread_create(&th[i], NULL, t_spin, 0); for (int i = 0; i < n; i++) pthread_join(th[i], 0); logf_("counter=%ld;", counter); pthread_spin_destroy(&spin); break;
+  case PG_SPIN: pthread_spin_init(&spin, PTHREAD_PROCESS_PRIVATE); for (long i = 0; i < n; i++) pthread_create(&th[i], NULL, t_spin, 0); for (int i = 0; i < n; i++) { pthread_join(th[i], &r); logf_("rc%d=%ld;", i, (long)r); } logf_("counter=%ld;", counter); pthread_spin_destroy(&spin); break;
   case PG_ONCE: for (long i = 0; i < n; i++) pthread_create(&th[i], NULL, t_once, 0); for (int i = 0; i < n; i++) { pthread_join(th[i], &r); logf_("seen%d=%ld;", i, (long)r); } pthread_once(&once, once_fn); logf_("runs=%ld;", once_runs); break;
   case PG_KEYS_ALL: keys_all = 1; /* fall through */
   case PG_KEYS: pthread_key_create(&key1, dtor); pthread_key_create(&key2, dtor);
@@ -98,6 +114,23 @@ static void program(int pg, int n, char * log, size_t logn) {
   case PG_SELF: for (long i = 0; i < n; i++) pthread_create(&th[i], NULL, t_self, (void *)i); for (int i = 0; i < n; i++) { pthread_join(th[i], &r); logf_("s%d=%ld/%d;", i, (long)r, self_ok[i]); }
     logf_("distinct=%d;", !pthread_equal(th[0], th[1])); break;
   case PG_EXIT: for (long i = 0; i < n; i++) pthread_create(&th[i], NULL, t_exit, (void *)i); for (int i = n - 1; i >= 0; i--) { pthread_join(th[i], &r); logf_("e%d=%ld;", i, (long)r); } break;
+  case PG_TRYLOCK: pthread_mutex_init(&dm, NULL); pthread_mutex_lock(&dm);
+    for (long i = 0; i < n; i++) pthread_create(&th[i], NULL, t_try, (void *)i); for (int i = 0; i < n; i++) { pthread_join(th[i], &r); logf_("try%d=%ld;", i, (long)r); }
+    { int u = pthread_mutex_unlock(&dm); int t = pthread_mutex_trylock(&dm); int u2 = pthread_mutex_unlock(&dm); logf_("unlock=%d;trylock_free=%d;unlock2=%d;", u, t, u2); }
+    logf_("destroy=%d;", pthread_mutex_destroy(&dm)); break;
+  case PG_RETCODES: {
+    pthread_attr_t a; size_t ss = 0; int ds = -1; pthread_cond_t c; pthread_barrier_t b; pthread_key_t k; pthread_spinlock_t sp; pthread_mutexattr_t ma; int ty = -1;
+    logf_("ai=%d;", pthread_attr_init(&a)); logf_("ass=%d;", pthread_attr_setstacksize(&a, 262144)); { int q = pthread_attr_getstacksize(&a, &ss); logf_("ags=%d/%zu;", q, ss); }
+    logf_("asd=%d;", pthread_attr_setdetachstate(&a, PTHREAD_CREATE_JOINABLE)); { int q = pthread_attr_getdetachstate(&a, &ds); logf_("agd=%d/%d;", q, ds); }
+    logf_("c=%d;", pthread_create(&th[0], &a, t_leaf, (void *)4)); { int q = pthread_join(th[0], &r); logf_("j=%d/%ld;", q, (long)r); } logf_("ad=%d;", pthread_attr_destroy(&a));
+    logf_("mai=%d;", pthread_mutexattr_init(&ma)); logf_("mat=%d;", pthread_mutexattr_settype(&ma, PTHREAD_MUTEX_DEFAULT)); { int q = pthread_mutexattr_gettype(&ma, &ty); logf_("mag=%d/%d;", q, ty == PTHREAD_MUTEX_DEFAULT); }
+    logf_("mi=%d;", pthread_mutex_init(&dm, &ma)); logf_("ml=%d;", pthread_mutex_lock(&dm)); logf_("mu=%d;", pthread_mutex_unlock(&dm)); logf_("md=%d;", pthread_mutex_destroy(&dm)); logf_("mad=%d;", pthread_mutexattr_destroy(&ma));
+    logf_("ci=%d;", pthread_cond_init(&c, NULL)); logf_("cs=%d;", pthread_cond_signal(&c)); logf_("cb=%d;", pthread_cond_broadcast(&c)); logf_("cd=%d;", pthread_cond_destroy(&c));
+    logf_("bi=%d;", pthread_barrier_init(&b, NULL, 1)); logf_("bw=%d;", pthread_barrier_wait(&b) == PTHREAD_BARRIER_SERIAL_THREAD); logf_("bd=%d;", pthread_barrier_destroy(&b));
+    logf_("si=%d;", pthread_spin_init(&sp, PTHREAD_PROCESS_PRIVATE)); logf_("st=%d;", pthread_spin_trylock(&sp)); logf_("su=%d;", pthread_spin_unlock(&sp)); logf_("sd=%d;", pthread_spin_destroy(&sp));
+    logf_("kc=%d;", pthread_key_create(&k, NULL)); logf_("ks=%d;", pthread_setspecific(k, (void *)5)); logf_("kg=%ld;", (long)pthread_getspecific(k)); logf_("kd=%d;", pthread_key_delete(k));
+    logf_("y=%d;", sched_yield()); logf_("us=%d;", usleep(0)); logf_("eq=%d;", pthread_equal(pthread_self(), pthread_self()) != 0);
+    break; }
   default: pthread_key_create(&key1, NULL); for (long i = 0; i < n; i++) pthread_create(&th[i], NULL, t_mix, (void *)i); for (int i = 0; i < n; i++) { pthread_join(th[i], &r); logf_("m%d=%ld;", i, (long)r); } logf_("counter=%ld;", counter); break;
   }
 }
